@@ -155,6 +155,64 @@ static void random_kind()
   a->join();
 }
 
+// One execution that goes through every synchronisation kind, on objects whose ids are all different and non-zero
+// (dummy objects are created first: the id counters of mutexes, condvars, semaphores and barriers all start at 0, and
+// a checker that mixes up two ids of the same wire type cannot be seen when they are equal).  The main actor ends with
+// a failing assertion: simgrid-mc prints the textual trace of that execution (the checker-side description of every
+// transition) and its replay path; check.py replays the path in the application (RecordTrace::replay prints the
+// application-side observer of every step) and compares the two descriptions step by step.
+// p1 = d_mutex + 8 * d_cond + 64 * d_sem + 512 * d_barrier (numbers of dummies), p2 = capacity of the second semaphore
+static void synchro_desc_kind()
+{
+  std::vector<sg4::MutexPtr> dm;
+  std::vector<sg4::ConditionVariablePtr> dc;
+  std::vector<sg4::SemaphorePtr> ds;
+  std::vector<sg4::BarrierPtr> db;
+  for (int i = 0; i < (P1 & 7); i++)
+    dm.push_back(sg4::Mutex::create());
+  for (int i = 0; i < ((P1 >> 3) & 7); i++)
+    dc.push_back(sg4::ConditionVariable::create());
+  for (int i = 0; i < ((P1 >> 6) & 7); i++)
+    ds.push_back(sg4::Semaphore::create(1));
+  for (int i = 0; i < ((P1 >> 9) & 7); i++)
+    db.push_back(sg4::Barrier::create(2));
+  auto mtx  = sg4::Mutex::create();
+  auto cv   = sg4::ConditionVariable::create();
+  auto sem  = sg4::Semaphore::create(0);
+  auto bar  = sg4::Barrier::create(2);
+  dc.push_back(sg4::ConditionVariable::create()); // the second round uses yet other ids
+  auto mtx2 = sg4::Mutex::create();
+  dm.push_back(sg4::Mutex::create());
+  auto cv2  = sg4::ConditionVariable::create();
+  auto sem2 = sg4::Semaphore::create(P2);
+  auto w    = sg4::Actor::create("waiter", sg4::this_actor::get_host(), [=]() {
+    mtx->lock();
+    sem->release(); // "I hold the mutex": the notifier cannot signal before the wait below is registered
+    cv->wait(mtx);
+    mtx->unlock();
+    bar->wait();
+    sem2->acquire();
+    mtx2->lock();
+    sem->release();
+    cv2->wait_for(mtx2, 10.0);
+    mtx2->unlock();
+    if (mtx->try_lock())
+      mtx->unlock();
+    sem2->release();
+  });
+  sem->acquire();
+  mtx->lock();
+  cv->notify_one();
+  mtx->unlock();
+  bar->wait();
+  sem->acquire();
+  mtx2->lock();
+  cv2->notify_all();
+  mtx2->unlock();
+  w->join();
+  MC_assert(false); // forces the report of this execution
+}
+
 static void mess_kind()
 {
   auto* mq = sg4::MessageQueue::by_name("control");
@@ -207,6 +265,8 @@ int main(int argc, char* argv[])
       random_kind();
     else if (kind == "mess")
       mess_kind();
+    else if (kind == "synchro_desc")
+      synchro_desc_kind();
     else
       xbt_die("unknown kind %s", kind.c_str());
   });
